@@ -8,6 +8,8 @@ import pipeline
 import regen
 import spirvgen as sg
 import streams
+import corr
+import liftcanon
 
 PROP = "C18"
 
@@ -248,6 +250,9 @@ def run(rep):
     )
     p = regen.prepare(release=False)
     broken = list(p.broken)
+    lf = getattr(p, "lift_failures", [])
+    if lf or p.failures(["rspirv/lift/autogen_context.rs"]):
+        broken.insert(0, {"lemma": "rs2coq recogniser (T-src lift arms)", "error": "\n".join((lf + p.failures(["rspirv/lift/autogen_context.rs"]))[:20])})
     ok, info = pipeline.proof_stage(rep, PROP, broken)
     bad = []
     if p.exe:
@@ -279,13 +284,75 @@ def run(rep):
             words = sg.header_words(version=version) + [w for t in insts for w in sg.spec_encode(t)]
             lines.append("lift " + sg.words_hex(words))
             meta.append((insts, exp, version))
-        files, err = streams.serve_both("c18", lines, p.exe, None)
+        # outside the subset: the model must reproduce the lifter's errors and panics too
+        nsub = len(lines)
+        for k in range(120 if rep.tier == "thorough" else 40):
+            insts, exp = sgen.module(pool)
+            kind = k % 8
+            m2 = list(insts)
+            tyidx = [i for i, t in enumerate(m2) if int(t.split("/")[0], 16) in range(0x13, 0x22)]
+            if kind == 0 and tyidx:
+                m2.pop(rng.choice(tyidx))                                  # a referenced type is no longer declared
+            elif kind == 1 and tyidx:
+                m2.insert(tyidx[-1] + 1, m2[rng.choice(tyidx)])            # duplicate result id
+            elif kind == 2:
+                m2 = [t for t in m2 if not t.startswith("e/")]            # no memory model
+            elif kind == 3:
+                # a 64-bit constant
+                m2.insert(tyidx[-1] + 1, "15/-/7f0/L40,L0")
+                m2.insert(tyidx[-1] + 2, "2b/7f0/7f1/Q%x" % rng.randrange(1 << 64))
+            elif kind == 4:
+                # a function call in a block (no lift_op arm)
+                lab = [i for i, t in enumerate(m2) if t.startswith("f8/")]
+                if lab:
+                    m2.insert(lab[0] + 1, "39/%s/7f2/R7f3" % m2[tyidx[0]].split("/")[2])
+            elif kind == 5:
+                # switch to a later block / to an earlier block
+                lab = [i for i, t in enumerate(m2) if t.startswith("f8/")]
+                terms = [i for i, t in enumerate(m2) if int(t.split("/")[0], 16) in (0xf9, 0xfa, 0xfc, 0xfd, 0xfe, 0xff)]
+                if lab and terms:
+                    tgt = m2[rng.choice(lab)].split("/")[2]
+                    m2[rng.choice(terms)] = "fb/-/-/R7f4,R%s,L1,R%s" % (tgt, tgt)
+            elif kind == 6:
+                fe = [i for i, t in enumerate(m2) if t.startswith("38/")]
+                lab = [i for i, t in enumerate(m2) if t.startswith("f8/")]
+                if fe and lab:
+                    # a function without blocks
+                    m2 = m2[:fe[-1]] + ["38/-/-/-", "36/%s/7f5/E%d.0,R7f6" % (m2[tyidx[0]].split("/")[2], g.kidx["FunctionControl"])] + m2[fe[-1]:]
+            elif kind == 7 and tyidx:
+                a, b = tyidx[0], tyidx[-1]
+                m2[a], m2[b] = m2[b], m2[a]                                # use before declaration
+            version = rng.choice([0x00010000, 0x00010300])
+            words = sg.header_words(version=version) + [w for t in m2 for w in sg.spec_encode(t)]
+            lines.append("lift " + sg.words_hex(words))
+        mexe, merr = corr.build_modelrun()
+        files, err = streams.serve_both("c18", lines, p.exe, mexe)
         if files is None:
             ok, info = False, {"lemma": "harness run", "error": err}
         else:
             nt = 0
             seen_ops = set()
-            for (insts, exp, version), got in zip(meta, streams.read_lines(files[1])):
+            # correspondence: the Coq lift model (arms translated from the source) against the real lifter
+            if mexe is None and ok:
+                ok, info = False, {"lemma": "modelrun build", "error": merr}
+            il = streams.read_lines(files[1])
+            ml = streams.read_lines(files[2]) if mexe else []
+            can = liftcanon.Canon(g, p.facts["lift"])
+            mism = []
+            outcomes = {}
+            for k, (got, mgot) in enumerate(zip(il, ml)):
+                try:
+                    a = liftcanon.canon_answer(can, got)
+                except Exception as ex:      # the Debug text has a shape the canonicaliser does not know
+                    a = "UNREADABLE %r" % (ex,)
+                outcomes[a.split(" ")[0].split(":")[0]] = outcomes.get(a.split(" ")[0].split(":")[0], 0) + 1
+                if a != mgot:
+                    mism.append({"case": lines[k][:400], "impl": a[:700], "model": mgot[:700]})
+            rep.cov["model_correspondence"] = {"cases": len(ml), "mismatches": len(mism), "outcomes": outcomes, "subset_modules": nsub}
+            if mism and ok:
+                ok = False
+                info = {"lemma": "correspondence stream c18 (LiftContext::convert vs Coq lift model)", "error": json.dumps(mism[0])[:1800]}
+            for (insts, exp, version), got in zip(meta, il):
                 what = None
                 if not got.startswith("OK:"):
                     msg = got if got.startswith("PANIC") else got.split(":")[0] + ":" + bytes.fromhex(got.split(":", 1)[1]).decode("utf-8", "replace")[:200]
